@@ -31,7 +31,9 @@ func replayFile(path string) int {
 	rd := v.Replay
 	spec := &Spec{Prop: rd.Prop, ShardNum: rd.ShardNum, TimersOff: rd.TimersOff, TTLTolMs: 1000, NoObservers: true}
 	if s, ok := specs[rd.Prop]; ok {
-		spec.Keys = s("quick").Keys
+		full := s("quick")
+		spec.Keys = full.Keys
+		spec.Lax = full.Lax
 	}
 	h.Boot(rd.ShardNum, 1)
 	rt.CurMode = rt.Controlled
